@@ -415,7 +415,10 @@ pub fn run(ctx: &mut Ctx) {
                         break c;
                     }
                 };
-                ("non-hex-digit", format!("{q}{pre}\\{}{}{post}{q}", lead, digits.into_iter().collect::<String>()))
+                // \x / \X also inside byte literals
+                let bprefix = if n == 2 && rng.chance(1, 3) { "b" } else { "" };
+                let lead = if n == 2 && rng.chance(1, 4) { "X" } else { lead };
+                ("non-hex-digit", format!("{bprefix}{q}{pre}\\{}{}{post}{q}", lead, digits.into_iter().collect::<String>()))
             }
             9 => {
                 let n = *rng.pick(&[2usize, 4, 8]);
